@@ -87,6 +87,11 @@ class Engine:
         self.n_fallback_calls = 0
         self.last_model = None
         self.results = []
+        self.restore_state = True       # library module state is put back before every path (symrun/state.py)
+        self.n_state_restores = 0
+        self.n_reordered = 0
+        import os as _os
+        self.debug_fork = bool(_os.environ.get('SYMRUN_DEBUG_DIVERGE'))
 
     # ---- symbols ----------------------------------------------------
     def fresh_name(self, base):
@@ -100,13 +105,31 @@ class Engine:
         Exception (both are outcomes).  on_path(PathResult) is called at the end
         of each path, still inside the engine context (solver available)."""
         global _current
-        pending = [[]]
+        from . import state as _state
+        snap = _state.get() if self.restore_state else None
+        pending = [([], [], [])]
+        try:
+            return self._explore(fn, on_path, pending, snap)
+        finally:
+            if snap is not None:
+                snap.restore()
+
+    def _explore(self, fn, on_path, pending, snap):
+        global _current
         while pending:
             if self.deadline and time.time() > self.deadline:
                 raise Budget('time budget exhausted after %d paths' % self.n_paths)
-            prefix = pending.pop()
+            prefix, prefix_hashes, prefix_notes = pending.pop()
+            if snap is not None:
+                self.n_state_restores += 1 if snap.restore() else 0
             self.prefix = prefix
+            self.prefix_hashes = prefix_hashes
+            self.prefix_notes = prefix_notes
+            self.dec_notes = []
+            self.next_note = None
             self.decisions = []
+            self.dec_hashes = []
+            self.symstore = {}             # id(dict) -> (dict, [(symbolic key, value)]): stores under a symbolic key on this path
             self.pc = []
             self.solver = z3.Solver()
             self.solver.set('timeout', self.solver_timeout_ms)
@@ -287,11 +310,31 @@ class Engine:
     def branch(self, t, trust_feasible=False):
         """Decide the truth of z3 Bool t on this path; fork when both are possible."""
         if z3.is_true(t):
+            self.next_note = None
             return True
         if z3.is_false(t):
+            self.next_note = None
             return False
         i = len(self.decisions)
+        self.dec_hashes.append(t)                   # the condition itself (hash-consed z3 term), compared on re-execution
+        self.dec_notes.append(self.next_note)       # candidate value of a concretisation step (values.concretize_int), else None
+        self.next_note = None
         if i < len(self.prefix):
+            rec = self.prefix_hashes[i]
+            if not t.eq(rec):
+                # not the very term the prefix was recorded for.  The same condition written in another order (a set iterated in
+                # another order) is accepted after the solver has shown the two equivalent; anything else means the re-execution
+                # took a different course (state carried over from another path, a non-deterministic harness): inconclusive
+                s2 = z3.Solver()
+                s2.set('timeout', 20000)
+                s2.add(t != rec)
+                self.n_solver_calls += 1
+                if str(s2.check()) != 'unsat':
+                    if self.debug_fork:
+                        open('/tmp/_rec.txt', 'w').write(rec.sexpr())
+                        open('/tmp/_now.txt', 'w').write(t.sexpr())
+                    raise Unsupported('re-execution diverged from the recorded path at decision %d' % i)
+                self.n_reordered += 1
             d = self.prefix[i]
             self.decisions.append(d)
             self.add(t if d else z3.Not(t))
@@ -319,7 +362,9 @@ class Engine:
                 raise PathAbort()
         if can_t and can_f:
             self.n_forks += 1
-            self.pending.append(self.decisions + [False])
+            self.pending.append((self.decisions + [False], list(self.dec_hashes), list(self.dec_notes)))
+            if self.debug_fork:
+                print('FORK at %d: %s' % (i, t.sexpr()[:600]), flush=True)
             d = True
         else:
             d = can_t
